@@ -3,7 +3,7 @@ import csv as pycsv, io, json
 from concurrent.futures import ThreadPoolExecutor
 from vlib import *
 
-FMT = {"tsv": 0, "dkvp": 1, "nidx": 2, "csv": 3, "json": 4, "xtab": 5, "csvlite": 6, "pprint": 7, "markdown": 8}
+FMT = {"tsv": 0, "dkvp": 1, "nidx": 2, "csv": 3, "json": 4, "xtab": 5, "csvlite": 6, "pprint": 7, "markdown": 8, "dkvpx": 9}
 WIDTH_FMTS = ("xtab", "pprint", "markdown")
 
 # strings.TrimSpace: the Unicode White_Space runes, UTF-8 encoded (barred PPRINT and markdown readers trim every cell)
@@ -15,11 +15,6 @@ def trim_stable(x):
     return not any(x.startswith(q) or x.endswith(q) for q in WS_SEQS)
 
 
-def dashes_only(cells):
-    """the markdown reader takes `| - |  |` for a header-separator line"""
-    return all(set(x) <= set(b"- ") for x in cells)
-
-
 def md_escape(v):
     return v.replace(b"|", b"\\|")
 
@@ -27,6 +22,9 @@ def md_escape(v):
 SEPS1 = [(",", b","), (";", b";"), ("|", b"|"), (":", b":"), ("semicolon", b";"), ("pipe", b"|"), ("comma", b","),
          ("colon", b":"), ("equals", b"="), ("space", b" "), ("tab", b"\t"), ("slash", b"/"), ("ascii_us", b"\x1f")]
 SEPS_MULTI = [(";;", b";;"), ("::", b"::"), ("=>", b"=>"), (", ", b", "), ("usv_fs", b"\xe2\x90\x9f"), ("<sep>", b"<sep>")]
+
+# custom record separators (command-line spelling, bytes): single bytes, multi-byte, last byte repeated inside, named aliases
+RSEPS = [(";", b";"), ("pipe", b"|"), ("ascii_rs", b"\x1e"), (";;", b";;"), ("||", b"||"), ("usv_rs", b"\xe2\x90\x9e"), ("<rs>", b"<rs>"), ("abab", b"abab"), ("aab", b"aab")]
 
 ALPHA_WEIGHTED = (
     [b"a", b"b", b"c", b"x", b"y", b"1", b"2", b"0"] * 6 +
@@ -127,17 +125,44 @@ def gen_write_case(ctx, fmt):
             fs = rng.choice(SEPS1 + SEPS_MULTI)
             ps = rng.choice([s for s in SEPS1 + SEPS_MULTI if not (set(s[1]) & set(fs[1]))])
             args += ["--ofs", fs[0], "--ops", ps[0]]
+        rs = None
+        if rng.random() < 0.25:       # custom record separator (single- and multi-character line readers)
+            rs = rng.choice([r for r in RSEPS if not (set(r[1]) & set(fs[1] + ps[1]))])
+            crlf = False
+            args += ["--ors", rs[0]]
         if crlf:
             args += ["--ors", "crlf"]
-        c["flags"] = [crlf]; c["seps"] = [fs[1], ps[1]]
+        c["flags"] = [crlf]; c["seps"] = [fs[1], ps[1]] + ([rs[1]] if rs else [])
         in_dom = rng.random() < 0.85
-        valpha = alpha_without(fs[1] + b"\n") if in_dom else ALPHA_WEIGHTED
-        kalpha = alpha_without(fs[1] + ps[1] + b"\n") if in_dom else ALPHA_WEIGHTED
+        valpha = alpha_without(fs[1] + b"\n" + (rs[1] if rs else b"")) if in_dom else ALPHA_WEIGHTED
+        kalpha = alpha_without(fs[1] + ps[1] + b"\n" + (rs[1] if rs else b"")) if in_dom else ALPHA_WEIGHTED
         recs = []
         for i in range(nrec):
             n = gen_nfields(rng, big and i < 2) if rng.random() > 0.07 else 0
             keys = gen_keys(rng, n, kalpha)
             recs.append([(k, gen_cell(rng, valpha)) for k in keys])
+        c["args"], c["recs"] = args, recs
+    elif fmt == "dkvpx":
+        crlf = rng.random() < 0.25
+        args = ["-o", "dkvpx"]
+        one = [s for s in SEPS1 if len(s[1]) == 1]
+        if rng.random() < 0.6:
+            fs, ps = (None, b","), (None, b"=")
+        else:
+            fs = rng.choice(one)
+            ps = rng.choice([s for s in one if s[1] != fs[1]])
+            args += ["--ofs", fs[0], "--ops", ps[0]]
+        if crlf:
+            args += ["--ors", "crlf"]
+        c["flags"] = [crlf]; c["seps"] = [fs[1], ps[1]]
+        alpha = ALPHA_WEIGHTED + [fs[1], ps[1], b'"', b"\n", b"\n\n", b'"\n', b"\r"] * 2     # everything is representable through quoting
+        recs = []
+        for i in range(nrec):
+            n = gen_nfields(rng, big and i < 2) if rng.random() > 0.07 else 0
+            keys = gen_keys(rng, n, alpha)
+            if rng.random() < 0.9:
+                keys = [k or b"k" for k in keys]
+            recs.append([(k, gen_cell(rng, alpha)) for k in keys])
         c["args"], c["recs"] = args, recs
     elif fmt in ("csvlite", "pprint"):
         crlf = rng.random() < 0.2
@@ -179,13 +204,15 @@ def gen_write_case(ctx, fmt):
         args += ["--ors", "crlf"] if crlf else []
         c["flags"] = [aligned, crlf]; c["seps"] = []
         in_dom = rng.random() < 0.85
-        alpha = (alpha_without(b"|\n") if in_dom else ALPHA_WEIGHTED) + [b" ", b"\xc2\xa0", b"\xe2\x80\x83", b"-", b"--"] * 2
+        extra = [b" ", b"\xc2\xa0", b"\xe2\x80\x83", b"-", b"--"] * 2
+        alpha = (alpha_without(b"|\n") if in_dom else ALPHA_WEIGHTED) + extra
+        valpha = (alpha_without(b"\n") if in_dom else ALPHA_WEIGHTED) + extra + [b"|", b"\\|", b"\\", b":"] * 2    # "|" in a value is written "\|"
         recs, keys = [], None
         for i in range(nrec):
             if keys is None or rng.random() < 0.35:
                 n = gen_nfields(rng, big and i < 2) if rng.random() > 0.05 else 0
                 keys = gen_keys(rng, n, alpha)
-            recs.append([(k, gen_cell(rng, alpha, empty_p=0.12)) for k in keys])
+            recs.append([(k, gen_cell(rng, valpha, empty_p=0.12)) for k in keys])
         c["args"], c["recs"] = args, recs
     elif fmt == "xtab":
         right = rng.random() < 0.2
@@ -219,17 +246,49 @@ def gen_write_case(ctx, fmt):
         if rng.random() < 0.4:
             fs = rng.choice(SEPS1 + SEPS_MULTI)
             args += ["--ofs", fs[0]]
+        rs = None
+        if fs[0] and rng.random() < 0.4:
+            rs = rng.choice([r for r in RSEPS if not (set(r[1]) & set(fs[1]))])
+            crlf = False
+            args += ["--ors", rs[0]]
         if crlf:
             args += ["--ors", "crlf"]
-        c["flags"] = [crlf]; c["seps"] = [fs[1]]
+        c["flags"] = [crlf]; c["seps"] = [fs[1]] + ([rs[1]] if rs else [])
         in_dom = rng.random() < 0.85
-        valpha = alpha_without(fs[1] + b"\n \t") if in_dom else ALPHA_WEIGHTED
+        valpha = alpha_without(fs[1] + b"\n \t" + (rs[1] if rs else b"")) if in_dom else ALPHA_WEIGHTED
         recs = []
         for i in range(nrec):
             n = gen_nfields(rng, big and i < 2) if rng.random() > 0.07 else 0
             recs.append([(b"%d" % (j + 1), gen_cell(rng, valpha, empty_p=0.0 if in_dom else 0.1)) for j in range(n)])
         c["args"], c["recs"] = args, recs
     return c
+
+
+def gen_boundary_case(ctx):
+    """a record line whose length sits at a multiple of the 4096-byte bufio buffer, give or take two bytes (the line readers and
+    go-csv gather longer lines piece by piece), LF or -- mostly -- CRLF; plain cells, so the length is known in advance"""
+    rng = ctx.rng
+    fmt = rng.choice(["tsv", "dkvp", "nidx", "csvlite", "csv", "dkvp", "tsv"])
+    want_crlf = rng.random() < 0.7
+    while True:
+        c = gen_write_case(ctx, fmt)
+        if ("crlf" in c["args"]) == want_crlf and ("--ors" in c["args"]) == want_crlf:      # no custom ORS here
+            break
+    n, nrec = rng.randint(1, 4), rng.randint(1, 3)
+    headerless = fmt in ("tsv", "csv", "csvlite") and c["flags"][0]
+    keys = [b"%d" % (q + 1) for q in range(n)] if fmt == "nidx" or headerless else [b"K%d" % q for q in range(n)]
+    recs = [[(k, bytes(rng.choice(b"0123456789XYZ") for _ in range(rng.randint(1, 5)))) for k in keys] for _ in range(nrec)]
+    fs = b"\t" if fmt == "tsv" else c["seps"][0]
+    i, j = rng.randrange(nrec), rng.randrange(n)
+    cur = sum(len(v) for _, v in recs[i]) + len(fs) * (n - 1)
+    if fmt == "dkvp":
+        cur += sum(len(k) + len(c["seps"][1]) for k, _ in recs[i])
+    target = 4096 * rng.choice([1, 1, 2]) + rng.choice([-2, -1, -1, 0, 1])
+    k, v = recs[i][j]
+    recs[i][j] = (k, v + bytes(48 + q % 10 for q in range(target - cur)))
+    c["recs"], c["tags"] = recs, ["buffer-boundary-line"]
+    return c
+
 
 
 # ------------------------------------------------------------------ representable domains (Python side, for the oracle)
@@ -265,16 +324,27 @@ def in_domain(c):
                 return False
         return True
     if fmt == "dkvp":
-        fs, ps = c["seps"]; crlf = c["flags"][0]
+        fs, ps = c["seps"][:2]; crlf = c["flags"][0]
+        rs = c["seps"][2] if len(c["seps"]) > 2 else b""
         for r in recs:
             ks = [k for k, _ in r]
             if len(set(ks)) != len(ks):
                 return False
             for k, v in r:
-                if set(k) & (set(fs) | set(ps) | {10}) or set(v) & (set(fs) | {10}):
+                if set(k) & (set(fs) | set(ps) | set(rs) | {10}) or set(v) & (set(fs) | set(rs) | {10}):
                     return False
             if r and not crlf and r[-1][1].endswith(b"\r"):
                 return False
+        return True
+    if fmt == "dkvpx":
+        for i, r in enumerate(recs):
+            ks = [k for k, _ in r]
+            if len(set(ks)) != len(ks) or any(k == b"" for k in ks):
+                return False        # an empty key is written "=v" and read as a positional key
+            if any(b"\r\n" in x for kv in r for x in kv):
+                return False        # known finding dkvpx-reader-crlf-in-quoted-field-to-lf (as for CSV)
+        if recs and recs[0] and recs[0][0][0].startswith(b"\xef\xbb\xbf") and not (set(recs[0][0][0]) & (set(b'\r\n"') | set(c["seps"][0] + c["seps"][1]))):
+            return False            # an unquoted first key starting with the BOM bytes is a BOM
         return True
     if fmt in ("pprint", "markdown") and (fmt == "markdown" or c["flags"][3]):
         # barred PPRINT / markdown: cells are trimmed by the reader; "" and "-" are ordinary values (barred)
@@ -284,11 +354,13 @@ def in_domain(c):
             vs = [v for _, v in r]
             if not r or len(set(ks)) != len(ks) or any(44 in k for k in ks):
                 return False
-            if any(set(x) & {10, 124} or not trim_stable(x) for x in ks + vs):
+            if any(set(x) & {10} or not trim_stable(x) for x in ks + vs) or any(124 in k for k in ks):
                 return False
+            if fmt != "markdown" and any(124 in v for v in vs):
+                return False    # barred PPRINT has no escape for "|"; the markdown writer writes it as "\|" (values only)
+            if fmt == "markdown" and ks == [b""]:
+                return False    # the joined keys "" mean "no header written yet": every such record gets its own header
             if headerless and ks != [b"%d" % (q + 1) for q in range(len(r))]:
-                return False
-            if fmt == "markdown" and (dashes_only(ks) or dashes_only(vs)):
                 return False
         return True
     if fmt in ("csvlite", "pprint"):
@@ -332,11 +404,12 @@ def in_domain(c):
         return True
     if fmt == "nidx":
         fs = c["seps"][0]; crlf = c["flags"][0]
+        rs = c["seps"][1] if len(c["seps"]) > 1 else b""
         for r in recs:
             if [k for k, _ in r] != [b"%d" % (i + 1) for i in range(len(r))]:
                 return False
             for k, v in r:
-                if v == b"" or set(v) & (set(fs) | {10, 32, 9}):
+                if v == b"" or set(v) & (set(fs) | set(rs) | {10, 32, 9}):
                     return False
             if r and not crlf and r[-1][1].endswith(b"\r"):
                 return False
@@ -352,6 +425,8 @@ def witness_class(c, got):
     if fmt == "tsv":
         if recs and len(recs[0]) == 1 and (keys[0] == b"" or any(v == b"" for v in vals)):
             return "tsv-single-column-empty-cell"
+    if fmt == "dkvpx" and any(b"\r\n" in x for x in keys + vals):
+        return "dkvpx-reader-crlf-in-quoted-field-to-lf"
     if fmt == "csv":
         crlf = c["flags"][2]
         if crlf and any(b"\r" in x for x in keys + vals):
@@ -515,10 +590,17 @@ def read_variants(ctx, c):
             + ([] if dd else ["--no-dedupe-field-names"]) + (["--allow-ragged-csv-input"] if rg else []) + (["--lazy-quotes"] if lazy else [])
         out.append((args, [headerless, lazy, dd, rg], [comma]))
     elif fmt == "dkvp":
+        fs, ps = c["seps"][:2]
+        rs = c["seps"][2:]
+        dd = rng.random() < 0.85
+        args = ["--idkvp"] + (["--ifs", sepname(fs), "--ips", sepname(ps)] if (fs, ps) != (b",", b"=") else []) + ([] if dd else ["--no-dedupe-field-names"]) \
+            + (["--irs", rsname(rs[0])] if rs else [])
+        out.append((args, [False, dd], [fs, ps] + rs))
+    elif fmt == "dkvpx":
         fs, ps = c["seps"]
         dd = rng.random() < 0.85
-        args = ["--idkvp"] + (["--ifs", sepname(fs), "--ips", sepname(ps)] if (fs, ps) != (b",", b"=") else []) + ([] if dd else ["--no-dedupe-field-names"])
-        out.append((args, [False, dd], [fs, ps]))
+        args = ["-i", "dkvpx"] + (["--ifs", sepname(fs), "--ips", sepname(ps)] if (fs, ps) != (b",", b"=") else []) + ([] if dd else ["--no-dedupe-field-names"])
+        out.append((args, [dd], [fs, ps]))
     elif fmt in ("csvlite", "pprint"):
         dd = rng.random() < 0.85
         rg = rng.random() < 0.15
@@ -545,11 +627,16 @@ def read_variants(ctx, c):
             out.append((["--ijson"] if rng.random() < 0.7 else ["--ijsonl"], [], []))
     elif fmt == "nidx":
         fs = c["seps"][0]
-        if fs == b" " and rng.random() < 0.6:
+        rs = c["seps"][1:]
+        if fs == b" " and not rs and rng.random() < 0.6:
             out.append((["--inidx"], [False, True], [fs]))          # default: whitespace regex
         else:
-            out.append((["--inidx", "--ifs", sepname(fs), "--repifs"], [True, False], [fs]))
+            out.append((["--inidx", "--ifs", sepname(fs), "--repifs"] + (["--irs", rsname(rs[0])] if rs else []), [True, False], [fs] + rs))
     return out
+
+
+def rsname(b):
+    return {v: k for k, v in RSEPS}[b]
 
 
 def sepname(b):
@@ -614,11 +701,12 @@ def gen_extra_read_cases(ctx, n):
     jobs = []
     for _ in range(n):
         kind = rng.choice(EXTRA_KINDS if EXTRA_KINDS else ["lite-hand", "pprint-hand", "lite-implicit-hand", "pprint-implicit-hand", "barred-hand", "barred-hand", "md-hand", "md-hand", "xtab-hand", "json-hand", "json-hand", "csv-legal", "csv-legal", "csv-legal", "csv-bom", "csv-noeol", "csv-ragged", "csv-implicit", "csv-lazy", "csv-dupkeys",
-                           "tsv-hand", "tsv-ragged", "tsv-implicit", "dkvp-hand", "dkvp-repifs", "nidx-ws", "nidx-hand"])
+                           "tsv-hand", "tsv-ragged", "tsv-implicit", "dkvp-hand", "dkvp-repifs", "nidx-ws", "nidx-hand", "dkvpx-hand", "dkvpx-hand"])
         ctx.dist("read-extra:" + kind)
         if kind in ("barred-hand", "md-hand"):
             md = kind == "md-hand"
-            alpha = [p for p in ALPHA_WEIGHTED if b"\n" not in p and b"\r" not in p] + [b" ", b"  ", b"-", b"\xc2\xa0", b"\xe2\x80\x83"] * 4 + [b"|", b"+"] * 3
+            alpha = [p for p in ALPHA_WEIGHTED if b"\n" not in p and b"\r" not in p] + [b" ", b"  ", b"-", b"\xc2\xa0", b"\xe2\x80\x83"] * 4 + [b"|", b"+"] * 3 \
+                + ([b"\\|", b"\\", b"\\\\|", b"|"] * 3 if md else [])
             ncol = rng.randint(1, 5)
             lines = []
             for _ in range(rng.randint(1, 8)):
@@ -628,7 +716,7 @@ def gen_extra_read_cases(ctx, n):
                     cells = [b"".join(rng.choice(alpha) for _ in range(rng.randint(0, 4))) for _ in range(n)]
                     lines.append(b"|" + b"".join(b" " * rng.randint(0, 2) + x + b" " * rng.randint(0, 3) + b"|" for x in cells))
                 elif r < 0.75:
-                    lines.append((b"| " + b" | ".join(rng.choice([b"---", b"-", b"--:", b":--", b""]) for _ in range(n)) + b" |") if md
+                    lines.append((b"| " + b" | ".join(rng.choice([b"---", b"---", b"-", b"--:", b":--", b"---:", b":-:", b"", b"x"]) for _ in range(n)) + b" |") if md
                                  else (b"+-" + b"-+-".join(b"-" * rng.randint(0, 4) for _ in range(n)) + b"-+"))
                 elif r < 0.85:
                     lines.append(b"")
@@ -722,6 +810,15 @@ def gen_extra_read_cases(ctx, n):
             dd = rng.random() < 0.8
             args = ["--itsv"] + (["--implicit-tsv-header"] if implicit else []) + ([] if dd else ["--no-dedupe-field-names"]) + (["--allow-ragged-csv-input"] if rg else [])
             jobs.append({"fmt": "tsv", "args": args, "flags": [implicit, dd, rg], "seps": [], "text": text, "kind": kind})
+        elif kind == "dkvpx-hand":
+            fs, ps = rng.choice([(b",", b"="), (b",", b"="), (b";", b":"), (b" ", b"=")])
+            alpha = [p for p in ALPHA_WEIGHTED if len(p) == 1 or rng.random() < 0.3] + [fs, ps, b'"', b'""', b"\n", b"\r\n", b'"\n', b"\n\n"] * 6
+            text = b"".join(rng.choice(alpha) for _ in range(rng.randint(0, 24))) + rng.choice([b"\n", b"\n", b"", b"\r", b"\r\n"])
+            if rng.random() < 0.1:
+                text = b"\xef\xbb\xbf" + text
+            dd = rng.random() < 0.7
+            args = ["-i", "dkvpx"] + (["--ifs", sepname(fs), "--ips", sepname(ps)] if (fs, ps) != (b",", b"=") else []) + ([] if dd else ["--no-dedupe-field-names"])
+            jobs.append({"fmt": "dkvpx", "args": args, "flags": [dd], "seps": [fs, ps], "text": text, "kind": kind})
         elif kind.startswith("dkvp"):
             fs, ps = rng.choice([((None, b","), (None, b"=")), (("semicolon", b";"), ("colon", b":")), ((";;", b";;"), ("=>", b"=>")), (("space", b" "), ("equals", b"="))])
             alpha = [p for p in ALPHA_WEIGHTED if b"\n" not in p] + [fs[1], ps[1], fs[1], ps[1]] * 8
@@ -731,7 +828,14 @@ def gen_extra_read_cases(ctx, n):
             rep = kind == "dkvp-repifs"
             dd = rng.random() < 0.7
             args = ["--idkvp"] + (["--ifs", fs[0], "--ips", ps[0]] if fs[0] else []) + (["--repifs"] if rep else []) + ([] if dd else ["--no-dedupe-field-names"])
-            jobs.append({"fmt": "dkvp", "args": args, "flags": [rep, dd], "seps": [fs[1], ps[1]], "text": text, "kind": kind})
+            rs = []
+            if rng.random() < 0.4:      # custom IRS on hand-made text: pieces of the IRS, unterminated last lines
+                r = rng.choice(RSEPS)
+                rs = [r[1]]
+                parts = [b"".join(rng.choice(alpha + [r[1][-1:], r[1][:1], r[1][:-1]] * 3) for _ in range(rng.randint(0, 8))) for _ in range(rng.randint(1, 4))]
+                text = r[1].join(parts) + rng.choice([r[1], r[1], b"", r[1][-1:], r[1][:-1]])
+                args += ["--irs", r[0]]
+            jobs.append({"fmt": "dkvp", "args": args, "flags": [rep, dd], "seps": [fs[1], ps[1]] + rs, "text": text, "kind": kind})
         else:
             alpha = [p for p in ALPHA_WEIGHTED if b"\n" not in p] + [b" ", b" ", b"  ", b"\t", b" \t "] * 6
             lines = [b"".join(rng.choice(alpha) for _ in range(rng.randint(0, 14))) for _ in range(rng.randint(1, 4))]
@@ -802,6 +906,8 @@ def t_seps(seps):
 
 def impl_widths(ctx, strings):
     strings = sorted(set(strings))
+    if not strings:
+        return {}
     rc, out, err = sh([ctx.implrun(), "c01-width"], inp="\n".join(x.hex() for x in strings) + "\n", timeout=300)
     rows = out.splitlines()
     if rc != 0 or len(rows) != len(strings):
@@ -841,10 +947,10 @@ def run(ctx):
                        "go-csv behaviour after a quoting error inside a record is not modelled (cases skipped and counted)",
                        "comma/IFS bytes below 0x80"]
     forbidden_gate(ctx, ["Base", "C01"])
-    ok, why = check_props(ctx, "C01/Props.v", ["C01/Harness.vo", "C01/ProofsDkvp.vo", "C01/ProofsTsv.vo", "C01/ProofsCsv.vo", "C01/ProofsCsv2.vo", "C01/ProofsJson.vo", "C01/ProofsXtab.vo", "C01/ProofsLite.vo", "C01/ProofsPprint.vo", "C01/ProofsBarred.vo", "C01/ProofsMd.vo"])
+    ok, why = check_props(ctx, "C01/Props.v", ["C01/Harness.vo", "C01/ProofsDkvp.vo", "C01/ProofsTsv.vo", "C01/ProofsCsv.vo", "C01/ProofsCsv2.vo", "C01/ProofsJson.vo", "C01/ProofsXtab.vo", "C01/ProofsLite.vo", "C01/ProofsPprint.vo", "C01/ProofsBarred.vo", "C01/ProofsMd.vo", "C01/ProofsDkvpx.vo", "C01/ProofsIrs.vo"])
 
     # ---- generate and run the writers
-    per_fmt = {"tsv": 180, "csv": 240, "dkvp": 120, "nidx": 70, "json": 120, "xtab": 120, "csvlite": 140, "pprint": 220, "markdown": 120} if quick else {"tsv": 4000, "csv": 5000, "dkvp": 3000, "nidx": 1500, "json": 3000, "xtab": 2500, "csvlite": 2500, "pprint": 4000, "markdown": 2500}
+    per_fmt = {"tsv": 180, "csv": 240, "dkvp": 120, "nidx": 70, "json": 120, "xtab": 120, "csvlite": 140, "pprint": 220, "markdown": 120, "dkvpx": 150} if quick else {"tsv": 4000, "csv": 5000, "dkvp": 3000, "nidx": 1500, "json": 3000, "xtab": 2500, "csvlite": 2500, "pprint": 4000, "markdown": 2500, "dkvpx": 3000}
     only = os.environ.get("C01_ONLY")      # development aid: restrict the generated formats
     if only:
         per_fmt = {k: v for k, v in per_fmt.items() if k in only.split(",")}
@@ -858,6 +964,10 @@ def run(ctx):
                 ctx.dist("write-shape:" + t)
             nf = max([len(r) for r in c["recs"]] + [0])
             ctx.dist("fields>=12" if nf >= 12 else "fields<12")
+    for _ in range(0 if (only and "boundary" not in only) else 24 if quick else 300):
+        c = gen_boundary_case(ctx)
+        wcases.append(c)
+        ctx.dist("write-boundary:" + c["fmt"])
     with ctx.timed("impl_write"):
         wres = impl_write(ctx, wcases)
     def wstrings(c):
@@ -1012,13 +1122,18 @@ WITNESSES = [
     ("tsv-single-column-empty-cell", ["--otsv"], ["--itsv"], [[(b"a", b"")]]),
     ("csv-reader-crlf-in-quoted-field-to-lf", ["--ocsv"], ["--icsv"], [[(b"a", b"x\r\ny")]]),
     ("csv-ors-crlf-writer-drops-cr", ["--ocsv", "--ors", "crlf"], ["--icsv"], [[(b"a", b"x\ry")]]),
-    ("markdown-escaped-bar-not-unescaped", ["--omd"], ["--imd"], [[(b"a", b"x|y"), (b"b", b"2")]]),
-    ("markdown-dash-only-row-dropped", ["--omd"], ["--imd"], [[(b"a", b"-"), (b"b", b"")]]),
+    ("regression-of-ec53d6cbc-dkvpx-newline-in-quotes-dropped", ["-o", "dkvpx"], ["-i", "dkvpx"], [[(b"a", b"x\n\ny"), (b"b", b"\nz"), (b"c\"\n", b"\"\n\n")]]),
+    ("dkvpx-reader-crlf-in-quoted-field-to-lf", ["-o", "dkvpx"], ["-i", "dkvpx"], [[(b"a", b"x\r\ny")]]),
+    ("regression-of-80287c7ad-markdown-escaped-bar-not-unescaped", ["--omd"], ["--imd"], [[(b"a", b"x|y"), (b"b", b"2\\|"), (b"c", b"|")]]),
+    ("regression-of-75f65c604-markdown-dash-only-row-dropped", ["--omd"], ["--imd"], [[(b"a", b"-"), (b"b", b"")], [(b"a", b"---"), (b"b", b"--")]]),
+    ("regression-of-75f65c604-markdown-aligned-dash-only-row-dropped", ["--omd-aligned"], ["--imd"], [[(b"a", b"-"), (b"b", b"")]]),
     # representational limits of PPRINT (theorems C01_pprint_*_refuted): must stay as modelled
 ]
 # reader-only regression probes of repaired defects: (name, read args, text, expected records)
 READ_PROBES = [
     ("regression-of-ff74c4ac8-barred-implicit-header-panic", ["--ipprint", "--barred-input", "--implicit-csv-header"], b"abc\n| x | y |\n", [[(b"1", b"x"), (b"2", b"y")]]),
+    ("regression-of-6be21e050-markdown-alignment-colons", ["--imd"], b"| a | b |\n| ---: | :--- |\n| 1 | x |\n", [[(b"a", b"1"), (b"b", b"x")]]),
+    ("regression-of-5d07e29dc-multi-char-irs-repeated-last-byte", ["--idkvp", "--irs", ";;"], b"a=1;;b=2;;c=3;", [[(b"a", b"1")], [(b"b", b"2")], [(b"c", b"3;")]]),
     ("regression-of-a96f6ff95-multi-char-irs-drops-chunk", ["--idkvp", "--irs", "usv_rs"], b"a=x\xc3\x9ey\xe2\x90\x9eb=2\xe2\x90\x9e", [[(b"a", b"x\xc3\x9ey")], [(b"b", b"2")]]),
 ]
 
